@@ -10,7 +10,7 @@ const char * vf_harness_name = "c17_string";
 typedef vf::BS BS;
 #define FAIL(...) vf::Fail(__VA_ARGS__)
 struct Ctx {bool crossed; bool alias; uint64_t h; uint32 nops; std::string trace; bool wantTrace;};
-static Ctx g_cx;
+static Ctx g_cx; static std::string g_prevLonger; static uint32 g_residueNeedles = 0;
 static const uint32 LENS[] = {0,1,2,7,14,15,16,17,31,32,33,64};
 static std::string Gen(BS & bs) {const uint32 len = LENS[bs.u8()%12]; std::string r; const uint8_t mode = bs.u8()%4; for (uint32 i=0;i<len;i++) {char c; switch(mode) {case 0: c = 'a'+(char)(i%3); break; case 1: c = "ab "[bs.u8()%3]; break; case 2: c = (char)(0xC3+(i&1)*0x66); break; default: c = "aAbB. \t"[bs.u8()%7]; break;} r.push_back(c);} return r;}
 static void Cmp(const String & s, const std::string & m, const char * after)
@@ -24,12 +24,14 @@ extern "C" int vf_run_case(const uint8_t * data, size_t size)
 {
    static CompleteSetupSystem * css = NULL; if (css == NULL) css = new CompleteSetupSystem;
    BS bs(data, size);
+   g_prevLonger.clear(); g_residueNeedles = 0;
    Ctx & cx = g_cx; cx.crossed = cx.alias = false; cx.h = 7; cx.nops = 0; cx.trace.clear(); cx.wantTrace = vf::WantSample();
    String s, t; std::string m, mt;
    int steps = 0;
    while(!bs.done() && steps++ < 120)
    {
-      const uint8_t op = bs.u8()%48; const char * name = "?";
+      const uint8_t opb = bs.u8(); const uint8_t op = (opb >= 240) ? (uint8_t)(48+(opb-240)/8) : (uint8_t)(opb%48); const char * name = "?";      // (240..255 used to fold onto 0..15)
+      const std::string mBefore = m;
       const size_t lenBefore = m.size(); const size_t posBefore = bs.pos;
       const uint32 a = bs.u8()%(uint32)(m.size()+3), b = bs.u8()%(uint32)(m.size()+3);
       if (m.size() > 5000) {s.Clear(); m.clear();}
@@ -85,10 +87,40 @@ extern "C" int vf_run_case(const uint8_t * data, size_t size)
          case 44: {name="GetNumInstancesOf"; const char c = "ab "[bs.u8()%3]; uint32 cnt = 0; for (size_t i=a; i<m.size(); i++) if (m[i] == c) cnt++; if (s.GetNumInstancesOf(c, a) != cnt) FAIL("GetNumInstancesOf(char)");} break;
          case 45: {name="IndexOf(char)/Contains"; const char c = "ab Q"[bs.u8()%4]; const size_t f = (a < m.size()) ? m.find(c, a) : std::string::npos; if (s.IndexOf(c, a) != ((f==std::string::npos)?-1:(int)f)) FAIL("IndexOf(char)"); const size_t f2 = m.rfind(c); if (s.LastIndexOf(c) != ((f2==std::string::npos)?-1:(int)f2)) FAIL("LastIndexOf(char)"); if (s.Contains(c) != (m.find(c) != std::string::npos)) FAIL("Contains(char)");} break;
          case 46: {name="EqualsIgnoreCase/CompareToIgnoreCase"; const int e = strcasecmp(m.c_str(), mt.c_str()); if (s.EqualsIgnoreCase(t) != (e == 0)) FAIL("EqualsIgnoreCase"); const int c = s.CompareToIgnoreCase(t); if (((c<0)!=(e<0))||((c>0)!=(e>0))) FAIL("CompareToIgnoreCase");} break;
+         case 48: case 49:
+         {
+            // String-typed and case-insensitive searches with a start index.  The needle comes from the bytes the String held before it last became shorter (what may
+            // still lie behind its terminator), from its current contents, or from the generator; letter case is flipped at random.
+            name = "queries (String-typed, ignore-case)"; std::string g; const uint8_t src = bs.u8()%3; const uint32 gl = 1+bs.u8()%3;
+            if ((src == 0)&&(g_prevLonger.size() > m.size())) g = g_prevLonger.substr(m.size()+(b%(g_prevLonger.size()-m.size())), gl);
+            else if ((src == 1)&&(m.size())) g = m.substr(b%m.size(), gl);
+            else g = Gen(bs).substr(0, gl);
+            if (g.empty()) break;
+            const std::string exact = g;
+            for (size_t i=0; i<g.size(); i++) if (bs.u8()&1) {if ((g[i] >= 'a')&&(g[i] <= 'z')) g[i] = (char)(g[i]-32); else if ((g[i] >= 'A')&&(g[i] <= 'Z')) g[i] = (char)(g[i]+32);}
+            std::string lm = m, lg = g; for (size_t i=0; i<lm.size(); i++) if ((lm[i] >= 'A')&&(lm[i] <= 'Z')) lm[i] = (char)(lm[i]+32); for (size_t i=0; i<lg.size(); i++) if ((lg[i] >= 'A')&&(lg[i] <= 'Z')) lg[i] = (char)(lg[i]+32);
+            const String gs(g.c_str());
+            {const size_t f = (a < m.size()) ? lm.find(lg, a) : std::string::npos; const int e = (f == std::string::npos) ? -1 : (int)f;
+             if (s.IndexOfIgnoreCase(gs, a) != e) FAIL("IndexOfIgnoreCase(String [%s], %u) = %d, expected %d in [%s]", vf::Esc(g).c_str(), a, s.IndexOfIgnoreCase(gs, a), e, vf::Esc(m).c_str());
+             if (s.IndexOfIgnoreCase(g.c_str(), a) != e) FAIL("IndexOfIgnoreCase(const char * [%s], %u) = %d, expected %d in [%s]", vf::Esc(g).c_str(), a, s.IndexOfIgnoreCase(g.c_str(), a), e, vf::Esc(m).c_str());
+             if (s.ContainsIgnoreCase(gs, a) != (e >= 0)) FAIL("ContainsIgnoreCase(String, %u)", a); if (s.ContainsIgnoreCase(g.c_str(), a) != (e >= 0)) FAIL("ContainsIgnoreCase(const char *, %u)", a);}
+            {const size_t f = lm.rfind(lg); const int e = ((a < m.size())&&(f != std::string::npos)&&(f >= a)) ? (int)f : -1;
+             if (s.LastIndexOfIgnoreCase(gs, a) != e) FAIL("LastIndexOfIgnoreCase(String [%s], %u) = %d, expected %d in [%s]", vf::Esc(g).c_str(), a, s.LastIndexOfIgnoreCase(gs, a), e, vf::Esc(m).c_str());
+             if (s.LastIndexOfIgnoreCase(g.c_str(), a) != e) FAIL("LastIndexOfIgnoreCase(const char *, %u)", a);}
+            if (s.StartsWithIgnoreCase(gs) != ((lm.size() >= lg.size())&&(lm.compare(0, lg.size(), lg) == 0))) FAIL("StartsWithIgnoreCase(String)");
+            if (s.EndsWithIgnoreCase(gs) != ((lm.size() >= lg.size())&&(lm.compare(lm.size()-lg.size(), lg.size(), lg) == 0))) FAIL("EndsWithIgnoreCase(String)");
+            {const String es(exact.c_str()); const size_t f = (a < m.size()) ? m.find(exact, a) : std::string::npos; const int e = (f == std::string::npos) ? -1 : (int)f;
+             if (s.IndexOf(es, a) != e) FAIL("IndexOf(String [%s], %u) = %d, expected %d in [%s]", vf::Esc(exact).c_str(), a, s.IndexOf(es, a), e, vf::Esc(m).c_str()); if (s.Contains(es, a) != (e >= 0)) FAIL("Contains(String, %u)", a);
+             if (s.StartsWith(es) != ((m.size() >= exact.size())&&(m.compare(0, exact.size(), exact) == 0))) FAIL("StartsWith(String)"); if (s.EndsWith(es) != ((m.size() >= exact.size())&&(m.compare(m.size()-exact.size(), exact.size(), exact) == 0))) FAIL("EndsWith(String)");}
+            {const char c = g[0]; const char lc = ((c >= 'A')&&(c <= 'Z')) ? (char)(c+32) : c; size_t f = std::string::npos; for (size_t i=a; i<lm.size(); i++) if (lm[i] == lc) {f = i; break;} if (s.IndexOfIgnoreCase(c, a) != ((f == std::string::npos) ? -1 : (int)f)) FAIL("IndexOfIgnoreCase(char '%c', %u)", c, a);}
+            if ((src == 0)&&(g_prevLonger.size() > m.size())) g_residueNeedles++;
+         }
+         break;
          case 47: {name="t=s then mutate s (copies are independent)"; t = s; mt = m; s += 'k'; m.push_back('k');} break;
       }
       if (op == 37) {/* model for WithInsert(self): need the max arg that was consumed; simpler: recompute from the result's structural property */ const std::string got(s.Cstr(), s.Length()); if (got.size() < m.size()) FAIL("WithInsert shrank"); const size_t ia = muscleMin((size_t)a, m.size()); const size_t insLen = got.size()-m.size(); if (insLen > m.size()) FAIL("WithInsert inserted too much"); const std::string exp = m.substr(0, ia) + m.substr(0, insLen) + m.substr(ia); if (got != exp) FAIL("WithInsert(self) content"); m = exp;}
       Cmp(s, m, name); Cmp(t, mt, name);
+      if (m.size() < mBefore.size()) g_prevLonger = mBefore; else if (m.size() > g_prevLonger.size()) g_prevLonger.clear();
       cx.nops++;
       if ((lenBefore <= 15) != (m.size() <= 15)) cx.crossed = true;
       cx.h = vf::Hash64(data+posBefore, bs.pos-posBefore, vf::HashMix(cx.h, op));
@@ -96,7 +128,7 @@ extern "C" int vf_run_case(const uint8_t * data, size_t size)
       if ((cx.wantTrace)&&(cx.trace.size() < 1000)) {cx.trace += name; cx.trace += "; ";}
    }
    vf::Count("ops", cx.nops);
-   if (cx.crossed) vf::Count("case_crossing_small_buffer_boundary");
+   if (cx.crossed) vf::Count("case_crossing_small_buffer_boundary"); if (g_residueNeedles) vf::Count("case_search_for_bytes_left_behind_the_terminator");
    if (cx.alias) vf::Count("case_with_aliasing_operand");
    if ((cx.crossed)||(cx.alias)) {vf::NonTrivial(cx.h); if (cx.wantTrace) vf::Sample(cx.trace+" => ["+vf::Esc(m.substr(0, 80))+"]");}
    return 0;
